@@ -1,5 +1,98 @@
+/- Driver front-end of the Text family (C11, C12): (de)serialisation only.
+   A Python str travels as the JSON array of its code points. -/
 import SuppModel.Drv.Util
+import SuppModel.Text.Model
+
 namespace SuppModel.Drv.Text
-open Lean SuppModel.Drv
-def handle (_j : Json) : Json := errJson "driver for Text not built yet"
+open Lean SuppModel.Drv SuppModel.Text
+
+def strOfJson (j : Json) : Except String Str := do
+  let a ← j.getArr?
+  a.toList.mapM (fun x => do
+    let n ← x.getNat?
+    pure (Char.ofNat n))
+
+def strToJson (s : Str) : Json := Json.arr (s.map (fun c => Json.num (JsonNumber.fromNat c.toNat))).toArray
+
+def strsOfJson (j : Json) : Except String (List Str) := do
+  let a ← j.getArr?
+  a.toList.mapM strOfJson
+
+def field (j : Json) (k : String) : Except String Json := j.getObjVal? k
+def fstr (j : Json) (k : String) : Except String Str := (field j k).bind strOfJson
+def fstrs (j : Json) (k : String) : Except String (List Str) := (field j k).bind strsOfJson
+
+def posToJson (p : Nat × Nat) : Json := Json.arr #[Json.num (JsonNumber.fromNat p.1), Json.num (JsonNumber.fromNat p.2)]
+
+/-- one query against a file: [kind, id, sl, col, shift, delims] -/
+def query (lines : List Str) (q : Json) : Except String Json := do
+  let a ← q.getArr?
+  if a.size < 6 then throw "query needs 6 fields"
+  let kind ← a[0]!.getStr?
+  let id ← strOfJson a[1]!
+  let sl ← a[2]!.getNat?
+  let col ← a[3]!.getNat?
+  let shift ← a[4]!.getNat?
+  let delims ← a[5]!.getBool?
+  let r ← match kind with
+    | "raw" => pure (findIdLoc lines id (sl, col) shift delims)
+    | "func" => pure (declaredAt Generated.funcSite lines id (sl, col))
+    | "class" => pure (declaredAt Generated.classSite lines id (sl, col))
+    | "import" => pure (declaredAt Generated.importSite lines id (sl, col))
+    | "importfrom" => pure (declaredAt Generated.importFromSite lines id (sl, col))
+    | "legacydef" => pure (declaredAtDefLegacy lines id (sl, col))
+    | "legacyimport" => pure (findIdLocLegacy lines id (sl, col) 0 true)
+    | _ => throw "unknown query kind"
+  pure (posToJson r)
+
+def wordClass (j : Json) : Except String (Char → Bool) := do
+  let w ← fstr j "word"
+  pure (fun c => w.contains c)
+
+def handle (j : Json) : Json :=
+  let r : Except String Json := do
+    let op ← jstr j "op"
+    match op with
+    | "file" =>
+      let lines ← fstrs j "lines"
+      let qs ← jarr j "q"
+      let rs ← qs.toList.mapM (query lines)
+      pure (Json.mkObj [("ok", Json.arr rs.toArray),
+                        ("nonl", Json.bool (lines.all (fun l => !l.contains '\n'))),
+                        ("ascii", Json.arr (lines.map (fun l => Json.bool (asciiStr l))).toArray)])
+    | "prefix" =>
+      let line ← fstr j "line"
+      let isWord ← wordClass j
+      pure (Json.mkObj [("prefix", strToJson (assistPrefix isWord line)),
+                        ("generic", strToJson (prefixOf isWord line)),
+                        ("spec", strToJson (identSuffix isWord line)),
+                        ("branch", Json.bool (fromBranch line)),
+                        ("frompkg", strToJson (fromPackage line)),
+                        ("legacy", strToJson (prefixOfLegacy line))])
+    | "unmark" =>
+      let s ← fstr j "s"
+      pure (Json.mkObj [("ok", strToJson (unmark s)), ("marked", Json.bool (marked s))])
+    | "split_pkg" =>
+      let s ← fstr j "s"
+      let (h, t) := splitPkg s
+      pure (Json.mkObj [("ok", Json.arr #[strToJson h, strToJson t])])
+    | "join_pkg" =>
+      let a ← fstr j "a"
+      let b ← fstr j "b"
+      pure (Json.mkObj [("ok", strToJson (joinPkg a b))])
+    | "mark" =>
+      let lines ← fstrs j "lines"
+      let ln ← jnat j "ln"
+      let col ← jnat j "col"
+      match markLines lines ln col with
+      | .ok ls => pure (Json.mkObj [("ok", Json.arr (ls.map strToJson).toArray), ("source", strToJson (joinNl ls))])
+      | .error .indexError => pure (Json.mkObj [("err", Json.str "IndexError")])
+    | "proposals" =>
+      let names ← fstrs j "names"
+      pure (Json.mkObj [("ok", Json.arr ((proposals (names.map (fun n => (n, ())))).map strToJson).toArray)])
+    | _ => throw "unknown text op"
+  match r with
+  | .ok v => v
+  | .error e => errJson e
+
 end SuppModel.Drv.Text
